@@ -163,12 +163,29 @@ func genScenario(t *rapid.T, idx int) Scenario {
 	for i := 0; i < nf; i++ {
 		var choices []string
 		choices = append(choices, "persist", "del-recreate", "expire-longer", "expire-shorter", "touch")
+		if typ != "string" && typ != "stream" {
+			choices = append(choices, "empty-recreate", "empty-recreate")
+		}
 		if typ == "string" {
 			choices = append(choices, "overwrite", "overwrite-keepttl", "mset")
 		}
 		switch rapid.SampledFrom(choices).Draw(t, "follow") {
 		case "persist":
 			add("follow", kit.MkCmd("PERSIST", k))
+			d = -1
+		case "empty-recreate": // the key ceases to exist because its last element goes: the deadline goes with it
+			empt := map[string][][][]string{
+				"list": {{{"LPOP", "K", "10"}}, {{"RPOP", "K", "10"}}, {{"LTRIM", "K", "1", "0"}}, {{"LREM", "K", "0", "a"}, {"LREM", "K", "0", "b"}, {"LREM", "K", "0", "y"}, {"LREM", "K", "0", "z"}},
+					{{"LPOP", "K"}, {"RPOP", "K"}, {"LPOP", "K"}, {"LPOP", "K"}}, {{"LMOVE", "K", "K2", "LEFT", "LEFT"}, {"LMOVE", "K", "K2", "LEFT", "LEFT"}, {"LMOVE", "K", "K2", "LEFT", "LEFT"}, {"LMOVE", "K", "K2", "LEFT", "LEFT"}}},
+				"set": {{{"SPOP", "K", "10"}}, {{"SPOP", "K", "4"}}, {{"SREM", "K", "a", "b", "y", "z"}}, {{"SPOP", "K"}, {"SPOP", "K"}, {"SPOP", "K"}, {"SPOP", "K"}},
+					{{"SMOVE", "K", "K2", "a"}, {"SMOVE", "K", "K2", "b"}, {"SMOVE", "K", "K2", "y"}, {"SMOVE", "K", "K2", "z"}}},
+				"hash": {{{"HDEL", "K", "f", "g", "y"}}, {{"HDEL", "K", "f"}, {"HDEL", "K", "g"}, {"HDEL", "K", "y"}}},
+				"zset": {{{"ZREM", "K", "a", "b", "c", "y"}}, {{"ZREM", "K", "a"}, {"ZREM", "K", "b"}, {"ZREM", "K", "c"}, {"ZREM", "K", "y"}}},
+			}[typ]
+			for _, cmd := range rapid.SampledFrom(empt).Draw(t, "emptier") {
+				add("follow", subst(cmd, k))
+			}
+			add("follow", createCmd(typ, k))
 			d = -1
 		case "del-recreate":
 			add("follow", kit.MkCmd("DEL", k))
